@@ -200,6 +200,8 @@ func (x *run) txs(idx []int) []*types.Transaction {
 	return out
 }
 
+var errPanicked = fmt.Errorf("call panicked")
+
 // issue performs the call of op on the real pool (no barrier).
 func (x *run) issue(op *OpJS) {
 	p := x.r.pool
@@ -238,8 +240,8 @@ func (x *run) issue(op *OpJS) {
 		x.blocks[op.Block] = wo
 		x.guard("head", func() { x.r.chain.setHead(wo) })
 	case "bad":
-		var err error
-		x.guard("add-bad", func() { err = p.AddRemotes([]*types.Transaction{x.r.w.badTx(op.Bad)})[0] })
+		var err error = errPanicked
+		x.guard("add-bad:"+op.Bad, func() { err = p.AddRemotes([]*types.Transaction{x.r.w.badTx(op.Bad)})[0] })
 		op.Verdicts = []int{classify(err)}
 	case "sleep":
 		time.Sleep(time.Duration(op.Ms) * time.Millisecond)
@@ -317,7 +319,11 @@ func (x *run) slots(s *Snap) map[slotKey]int {
 // add than before it was replaced; the new one must carry the configured price bump and
 // the old one must be gone from every index.
 func (x *run) monitorReplacement(prev, cur *Snap, op *OpJS) {
-	bump := x.r.pool.VerifC19Config().PriceBump
+	cfg := x.r.pool.VerifC19Config()
+	if uint64(len(prev.Locals)+len(prev.Remotes)+len(op.Txs)) > cfg.GlobalSlots+cfg.GlobalQueue {
+		return // the pool-full branch of add may have evicted the old transaction first: not a replacement
+	}
+	bump := cfg.PriceBump
 	before, after := x.slots(prev), x.slots(cur)
 	present := map[int]bool{}
 	for _, id := range append(append([]int{}, cur.Locals...), cur.Remotes...) {
@@ -692,7 +698,7 @@ func (g *gen) genHead() OpJS {
 }
 
 func (g *gen) genBad() OpJS {
-	return OpJS{K: "bad", Bad: pick(g.rng, []string{"chainid", "zone", "external"})}
+	return OpJS{K: "bad", Bad: pick(g.rng, []string{"chainid", "zone", "external", "qi-noinput"})} // qi-inactive: corpus only (known finding)
 }
 
 func genSeqCase(rng *hlib.Rng, w *world, id int, rep *hlib.Report) *Case {
